@@ -18,6 +18,11 @@ RULE = ('generated stylesheets with features %s; model compared byte-for-byte, r
 ASSUMPTIONS = ['the LALR parser builds the node tree that harness/gens/sheet.py:tree() predicts (checked on every case through the byte-exact output comparison); independently of that prediction, the whole pipeline from the source TEXT (coq/Model/Lex.v + Parse.v + Eval.v: compile_text) is compared byte for byte with the real compiler on every case (abstentions counted in distribution.text_pipeline)',
                'harness/readcss.py reads the produced CSS back correctly (string-aware)', 'interpolated variables hold identifier / number values and are defined once, before use (the property quantifier)']
 TRUSTED = ['modelled by hand: plain string token (coq/Model/Lex.v), interpolation lookup and selector pre-pass (coq/Model/Eval.v), Property.fmt url() blank (coq/Model/Fmt.v)', 'reference semantics coq/Spec/Sem.v']
+LEVEL = 'other'
+EXPLANATION = ('partial: the theorems are about the lexer model (a string is one token whatever its body), the evaluator model (a string token evaluates to itself; @{name} = the value of '
+               '@name = what a plain use gives), the formatter model (printed verbatim under every fill record) and the selector pre-pass; the parser step in between is the reference '
+               'parser of coq/Model/Parse.v, tied to the real LALR parser by the byte-exact text-level correspondence; string-valued variables and selector interpolation inside mixin '
+               'bodies are outside the model')
 IVALS = [('num', '5'), ('num', '12px'), ('word', 'foo'), ('word', 'b2'), ('word', 'x-y'), ('word', '_u'), ('word', 'red'), ('num', '7'), ('num', '50%'), ('num', '1.5')]
 
 
